@@ -3,6 +3,12 @@ use crate::report::{Ctx, Report};
 pub mod c01;
 pub mod c02;
 pub mod c05;
+pub mod c08;
+pub mod c09;
+pub mod c10;
+pub mod c11;
+pub mod c12;
+pub mod c20;
 pub mod c13;
 
 pub fn run(ctx: &Ctx, rep: &mut Report) {
@@ -23,6 +29,12 @@ pub fn run(ctx: &Ctx, rep: &mut Report) {
         "C01" => c01::run(ctx, rep),
         "C02" => c02::run(ctx, rep),
         "C05" => c05::run(ctx, rep),
+        "C08" => c08::run(ctx, rep),
+        "C09" => c09::run(ctx, rep),
+        "C10" => c10::run(ctx, rep),
+        "C11" => c11::run(ctx, rep),
+        "C12" => c12::run(ctx, rep),
+        "C20" => c20::run(ctx, rep),
         "C13" => c13::run(ctx, rep),
         other => rep.inconclusive(&format!("unknown property {}", other)),
     }
